@@ -121,7 +121,7 @@ def run_case(case):
     intflow = bool(case.get('intflow'))
     lsc = float(gopts.get('lscale') or 1.0)
     gflow = g if lsc == 1.0 else Geom(cls, [np.asarray(f, dtype=float) / lsc if AXKIND[cls][k_] in ('len', 'rad') else f for k_, f in enumerate(faces)])
-    u, flowfam = flow_for(rng, gflow, m, spec, fams=tuple(case['flows']) if case.get('flows') else ('uniform-int',) if intflow else ('uniform', 'axis', 'radial', 'axis', 'uniform-int') if thin else
+    u, flowfam = flow_for(rng, gflow, m, spec, fams=('none',) if case.get('ptoggle') else tuple(case['flows']) if case.get('flows') else ('uniform-int',) if intflow else ('uniform', 'axis', 'radial', 'axis', 'uniform-int') if thin else
                           ('none', 'uniform', 'radial', 'stream-walls', 'stream-open', 'stream-walls', 'axis', 'axis', 'uniform-int'), retry=bool(case.get('geo')))
     if thin:
         cov['thin_grid'] = 1
@@ -192,6 +192,9 @@ def run_case(case):
     Mconv = pf.convectionUpwindTerm(uf) if 'upwind' in tset else None
     Mbeta = pf.linearSourceTerm(pf.CellVariable(m, beta.copy())) if beta is not None else None
     nsteps = int(rng.integers(1, 7))
+    ptoggle = bool(case.get('ptoggle'))
+    if ptoggle:
+        nsteps, edit_bcs = max(nsteps, 3), False
     vec_first = pf.constantSourceTerm(pf.CellVariable(m, 0.0)) if rng.random() < 0.4 else None
     if vec_first is not None:
         cov['source_vector_reused_first_in_list'] = 1
@@ -247,6 +250,23 @@ def run_case(case):
                         fe.fixedValue(v)
                         dvals[side_e] = np.array([v])
                     cov['bc_edit_between_steps:' + side_e] = cov.get('bc_edit_between_steps:' + side_e, 0) + 1
+            if ptoggle and step == 1 and flowfam == 'none':
+                # mid-run, an axis that carried boundary data is declared periodic (flag only; a, b, c stay as they were): from now
+                # on that data is no data any more, the admissible range is that of the field and of the remaining Dirichlet sides
+                capk = [k_ for k_ in range(g.nd) if gen.periodic_ok(cls, k_) and k_ not in spec['periodic']
+                        and abs(g.w[k_][0] - g.w[k_][-1]) <= 1e-12 * max(g.w[k_][0], g.w[k_][-1])]
+                havedata = [k_ for k_ in capk if any(s_ in dvals for s_ in SIDES[k_])]
+                if havedata or capk:
+                    kp_ = int(rng.choice(havedata or capk))
+                    stp_ = str(rng.choice(['both', 'low', 'high']))
+                    if stp_ in ('both', 'low'):
+                        getattr(phi.BCs, SIDES[kp_][0]).periodic = True
+                    if stp_ in ('both', 'high'):
+                        getattr(phi.BCs, SIDES[kp_][1]).periodic = True
+                    for s_ in SIDES[kp_]:
+                        dvals.pop(s_, None)
+                    spec['periodic'] = sorted(list(spec['periodic']) + [kp_])
+                    cov['axis_declared_periodic_mid_run:%s' % ('with-data' if havedata else 'no-data')] = 1
             if rebuild and step > 0:
                 Mdiff = -pf.diffusionTerm(Df)
                 Mconv = pf.convectionUpwindTerm(uf) if 'upwind' in tset else None
@@ -339,6 +359,8 @@ def plan(tier, seed):
         rad1 = NDIM[cls] == 1 and cls != 'Grid1D'
         cases += [{'cls': cls, 'seed': [seed, 7, ci, 500000 + i], 'family': None, 'geo': (['nano', 'nano', 'offset', 'nano', 'thinend'][i % 5] if rad1 else ['nano', 'offset', 'negative', 'thinend'][i % 4]), 'flows': dflows}
                   for i in range(per if rad1 else max(8, per // 5))]
+        if any(gen.periodic_ok(cls, k_) for k_ in range(NDIM[cls])):
+            cases += [{'cls': cls, 'seed': [seed, 7, ci, 600000 + i], 'family': ['uniform', 'symmetric'][i % 2], 'ptoggle': True} for i in range(max(10, per // 5))]
         if cls in ('Grid1D', 'Grid2D', 'Grid3D'):
             cases += [{'cls': cls, 'seed': [seed, 7, ci, 300000 + i], 'family': gen.FAMILIES[i % 5] if i % 2 else None, 'intflow': True}
                       for i in range(per // (2 if cls == 'Grid1D' else 6))]
